@@ -133,8 +133,13 @@ def run(tier, seed, ev):
             for dl in rng.sample([0, 1, 100, 5000, 70000, 0xFFFFFFFF], 3):
                 iid += 1
                 big = dl if dl < 100000 else 20000
+                # (last pattern: a small read that leaves most of a decoded run in the internal buffer, then a read of about the size of
+                #  a run - 17/18, 60, 256, 1024 ... - so that what is left over and the next run together exceed the request)
+                edge = [15, 16, 17, 18, 19, 33, 59, 60, 61, 255, 256, 257, 258, 511, 512, 513, 1023, 1024, 1025, 1500, 2046, 2047, 2048, 4095, 4097]
                 sch = rng.choice([["R%d" % (big + 9)], ["R1"] * 40 + ["R%d" % big], ["R0", "R7", "R13", "R4096", "R%d" % big], ["R4096"] * 6,
-                                  ["M", "R100", "R0", "R100000"]])
+                                  ["M", "R100", "R0", "R100000"],
+                                  [x for _ in range(6) for x in ("R%d" % rng.choice([1, 1, 2, 3]), "R%d" % rng.choice(edge))],
+                                  [x for _ in range(6) for x in ("R%d" % rng.choice([1, 1, 2, 3]), "R%d" % rng.choice(edge))]])
                 job = "real %d 1 %d %s %s %s" % (iid, dl, meth, path, ",".join(sch + ["L", "C"]))
                 jobs.append(job)
                 ev.cls((meth, cls.split("-")[0], "huge" if dl > 100000 else "zero" if dl == 0 else "mid", len(sch) > 1))
